@@ -71,19 +71,11 @@ def make_job(tr, rv, dialect, events=None):
 
 
 def observe(job, res):
-    o, names = job["_o"], job["_names"]
-    ch = drvrender.channel_text(o, res, names)
-    e, w, f = drvrender.count_channel(ch, o["gnu"])
-    return {"rc": res.rc, "kept": [(n[:-4] + ".p") in res.files for n in names],
-            "summary": None if o["q"] else [list(x) for x in drvrender.summaries(res.out)],
-            "chan": [e, w, f]}
+    return drvrender.observe(job["_o"], job["_names"], res)
 
 
 def expected(tr, o):
-    fs = tr["exp"]["files"]
-    return {"rc": tr["exp"]["status"], "kept": [bool(f["kept"]) for f in fs],
-            "summary": None if o["q"] else [[f["sumE"], f["sumW"]] for f in fs if f["assembled"] and not f["fatal"]],
-            "chan": [sum(f["chanE"] for f in fs), sum(f["chanW"] for f in fs), sum(f["chanF"] for f in fs)]}
+    return drvrender.expected(tr, o)
 
 
 def wrap16(tr):
@@ -185,7 +177,7 @@ def main(tier):
         rv = report_vector(rr)
         rv["x"] = 0                      # keep 65 k-line outputs small
         rv["L"] = False
-        jobs.append((t, make_job(t, rv, dialect, events="file,diag" if i < 6 else None), dialect))
+        jobs.append((t, make_job(t, rv, dialect, events="file,diag,stmt" if i < 6 else None), dialect))
     with Phase("replay %d runs" % len(jobs)):
         results = drvrun.run_many(bld, [j for (_, j, _) in jobs])
     execs, owners, late, late_owners = [], [], [], []
